@@ -177,8 +177,12 @@ class Exporter(object):
                 untyped = [x.arg for x in a.args if x.arg not in new]
             elif isinstance(a, ast.Assign):
                 st = [n for t in a.targets for n in ast.walk(t) if isinstance(n, ast.Name)]
-                typed = [n.id for n in st if n.id in new]
-                untyped = [n.id for n in st if n.id not in new]
+                # node_ok wants every clean POSITION of an unpacking target typed, not only the name's final entry
+                # (`w, w = w = ...` with an unknown slice types w through its last target only)
+                unpos = set(n.id for t in a.targets if isinstance(t, (ast.Tuple, ast.List)) for n in ast.walk(t)
+                            if isinstance(n, ast.Name) and self.prog.num[id(n)] not in self.an.types)
+                typed = [n.id for n in st if n.id in new and n.id not in unpos]
+                untyped = [n.id for n in st if n.id not in new or n.id in unpos]
                 reads = set(n.id for n in ast.walk(a.value) if isinstance(n, ast.Name))
             elif isinstance(a, ast.AugAssign):
                 typed, untyped = [], [a.target.id]
